@@ -24,19 +24,31 @@ def qf(v) -> float:
     return float(Fraction(v["n"], v["d"]))
 
 
+def _decl(e) -> str:
+    val = " ".join(e["toks"])
+    unit, desc = e.get("unit") or "", e.get("desc") or ""
+    if not unit and not desc:
+        return f'{e["name"]} = {val}'
+    extra = (f', unit="{unit}"' if unit else "") + (f', description="{desc}"' if desc else "")
+    return f'{e["name"]} = ScalarParam({val}{extra})'
+
+
 def render_text(blocks, eol: str = "\n") -> str:
     out = []
     for b in blocks:
         comp = b["comp"]
         if b["k"] in ("states", "parameters"):
             head = f'{b["k"]}("{comp}", ' if comp else f'{b["k"]}('
-            body = ", ".join(f'{e["name"]} = {" ".join(e["toks"])}' for e in b["entries"])
+            body = ", ".join(_decl(e) for e in b["entries"])
             out.append(head + body + ")")
         else:
             if comp:
                 out.append(f'expressions("{comp}")')
             for e in b["entries"]:
-                out.append(f'{e["name"]} = {" ".join(e["toks"])}')
+                line = f'{e["name"]} = {" ".join(e["toks"])}'
+                if e.get("unit"):
+                    line += f' # {e["unit"]}'
+                out.append(line)
     return eol.join(out) + eol
 
 
@@ -212,7 +224,8 @@ def _cmp(bad, stats, tag, name, got, v, ctx):
         bad.append({"tag": tag, "name": name, "got": got, "want": float(want), "want_exact": resid.fmt(v), **ctx})
 
 
-def check_model_case(rec, backend="numpy", remove_unused=(False, True), workdir=None, stiff=("x",), schemes=SCHEMES):
+def check_model_case(rec, backend="numpy", remove_unused=(False, True), workdir=None, stiff=("x",), schemes=SCHEMES,
+                     _ode=None):
     """Returns (stats, bad).  Tags: load, lengths, index, rhs, monitor, explicit_euler,
     generalized_rush_larsen, hybrid_rush_larsen, inputs_modified, remove_unused."""
     from . import gx
@@ -222,7 +235,7 @@ def check_model_case(rec, backend="numpy", remove_unused=(False, True), workdir=
     text = render_text(rec["blocks"])
     ctx0 = {"text": text, "backend": backend}
     try:
-        ode = gx.load(text)
+        ode = _ode if _ode is not None else gx.load(text)
     except Exception as ex:  # noqa: BLE001
         bad.append({"tag": "load", "exception": type(ex).__name__, "message": str(ex)[:300], **ctx0})
         return stats, bad
